@@ -212,6 +212,8 @@ def match_known(known, prop, cls, detail):
             continue
         if k.get("property") != prop:
             continue
+        if k.get("model_only"):
+            continue      # recognised inside the worker (exact condition in the oracle), never by failure class
         if k.get("class_re"):
             if not re.search(k["class_re"], cls):
                 continue
